@@ -128,3 +128,45 @@ Print Assumptions C07_parser_entries_total.
 Print Assumptions C07_settled_spec.
 Print Assumptions C07_parser_accepts_whole_input.
 Print Assumptions C07_parser_total_witness.
+
+(* ---------------------------------------------------------------------------------------------- *)
+(* Name resolution and dependency ordering never panic and never hang: theorems over the resolver model
+   Resolve/Resolver.v (its Panic outcomes are the indexing sites `self.namespace_to_file[..]`,
+   `self.namespaces[..]`, `file_to_namespace.get(..).unwrap()`, `namespaces.get_mut(..).unwrap()`; tied to
+   the real resolver on every run by the C09 check) and over Dep/Topo.v. *)
+From Sylt Require Resolve.PAst Resolve.Resolver Resolve.TreeOk Resolve.TotalProofs Resolve.RefineRefuted
+     Dep.Topo Dep.DepProofs Gen.GenResolve.
+
+(* C07_resolver_total.  `tree_ok ast` (computable, Resolve/TreeOk.v) is what tree() + extract_namespaces
+   guarantee: the main module has file id 0 and every span whose file id the resolver uses to select a
+   namespace table (identifier reads, `a.x` accesses, type paths, the statement spans of blob / enum /
+   external / global definitions) carries the file id of a module.  Then for every amount of fuel at least
+   `fuel_of ast` = 1 + the nesting depth of the deepest top-level statement, the resolver answers `Ok` or
+   `Err` of a NON-EMPTY list: no Panic site is reachable, it never runs out of fuel.  (wf_ast is not
+   needed.)  The C09 check evaluates tree_ok on every tie input. *)
+Theorem C07_resolver_total : forall (ast : Resolve.PAst.past) (fuel : nat),
+  Resolve.TreeOk.tree_ok ast = true -> Resolve.Resolver.fuel_of ast <= fuel ->
+  (exists r, Resolve.Resolver.resolve_fuel Gen.GenResolve.gen_rflags fuel ast = Resolve.Resolver.Ok r)
+  \/ (exists e es, Resolve.Resolver.resolve_fuel Gen.GenResolve.gen_rflags fuel ast = Resolve.Resolver.Err (e :: es)).
+Proof. exact (Resolve.TotalProofs.resolve_total Gen.GenResolve.gen_rflags). Qed.
+
+(* C07_order_total.  The dependency ordering always answers with an order or with a cycle: it has no
+   Panic site (an unknown variable is "not a definition"), and `S (length table)` fuel is enough. *)
+Theorem C07_order_total : forall (tgt : bool) (ss : list Syntax.Resolved.stmt),
+  (exists l, Dep.Topo.initialization_order tgt ss = Dep.Topo.OOk l)
+  \/ (exists c, Dep.Topo.initialization_order tgt ss = Dep.Topo.OCycle c).
+Proof. exact Dep.DepProofs.order_total. Qed.
+
+(* non-vacuity: a two-file program and a scope-violating program satisfy tree_ok; a tree with a span whose
+   file id (7) is no module's does not, and on it the model does reach a Panic site -- the hypothesis is
+   doing work *)
+Example C07_resolver_total_witness :
+  Resolve.TreeOk.tree_ok Resolve.RefineRefuted.w_nsfield_ok = true
+  /\ Resolve.TreeOk.tree_ok Resolve.RefineRefuted.w_if = true
+  /\ Resolve.TreeOk.tree_ok Resolve.TotalProofs.bad_tree = false
+  /\ (exists s, Resolve.Resolver.resolve Gen.GenResolve.gen_rflags Resolve.TotalProofs.bad_tree = Resolve.Resolver.Panic s).
+Proof. exact (Resolve.TotalProofs.total_example Gen.GenResolve.gen_rflags). Qed.
+
+Print Assumptions C07_resolver_total.
+Print Assumptions C07_order_total.
+Print Assumptions C07_resolver_total_witness.
